@@ -320,6 +320,13 @@ func (f *File) enterWriteMode() error {
 				"",
 				true,
 			); err != nil {
+				// Don't keep the half-restored buffer; a later write or `Close` would archive it in place of the file's content
+				_ = f.writeBuf.Close()
+				_ = f.cleanWriteBuf()
+
+				f.writeBuf = nil
+				f.cleanWriteBuf = nil
+
 				return err
 			}
 		}
